@@ -270,10 +270,18 @@ func (r partialMessageRouter) PeerRequestsPartial(peer peer.ID, topic string) bo
 // MeshPeers implements partialmessages.Router.
 func (r partialMessageRouter) MeshPeers(topic string) iter.Seq[peer.ID] {
 	return func(yield func(peer.ID) bool) {
-		peerSet := r.gs.mesh[topic]
-		if len(peerSet) == 0 {
-			// Possibly a fanout topic, or no mesh peers are available yet.
+		peerSet, joined := r.gs.mesh[topic]
+		if !joined {
+			// A fanout topic.
 			peerSet = r.gs.getFanoutPeersForPublishing(topic)
+		} else if len(peerSet) == 0 {
+			// No mesh peers are available yet. Pick from the eligible topic peers
+			// for this publication only: fanout state is for topics we have not
+			// joined.
+			peerSet = peerListToMap(r.gs.getPeers(topic, r.gs.params.D, func(p peer.ID) bool {
+				_, direct := r.gs.direct[p]
+				return !direct && r.gs.score.Score(p) >= r.gs.publishThreshold
+			}))
 		}
 
 		for peer := range peerSet {
